@@ -122,7 +122,8 @@ func (r Promise[T]) dispatchOrAddCallback(cb onCompleteFunc[T]) {
 		return
 
 	case []onCompleteFunc[T]:
-		if r.status.CompareAndSwap(ap, append(status, cb)) {
+		// copy instead of appending in place: the slice is shared with concurrent registrations
+		if r.status.CompareAndSwap(ap, append(status[:len(status):len(status)], cb)) {
 			return
 		}
 		r.dispatchOrAddCallback(cb)
